@@ -109,6 +109,11 @@ class Instance:
     __owner_builder: Optional[CodeBuilder] = None
     __self_builder: Optional[CodeBuilder] = None
 
+    # A field-level "serialize" / "serialization_strategy" option replaces the
+    # type of the field once: the replacement type and the instances derived
+    # from it (items, members) must not see the option again.
+    _field_override_applied: bool = False
+
     # Original type despite custom serialization. To be revised.
     _original_type: Type = field(init=False)
 
@@ -155,6 +160,9 @@ class Instance:
                 get_forward_ref_referencing_globals(new_type, self.type),
                 self.__dict__,
             )
+        if "name" in changes:
+            # another field: its own options apply
+            changes.setdefault("_field_override_applied", False)
         new_instance = replace(self, **changes)
         if is_dataclass(self.origin_type):
             new_instance.__owner_builder = self.__self_builder
@@ -216,10 +224,19 @@ class Instance:
     ) -> Optional[Union[Callable, str]]:
         if not self.__owner_builder:
             return None
-        serialize_option = self.metadata.get("serialize")
+        metadata = self.metadata
+        if self._field_override_applied:
+            metadata = {
+                k: v
+                for k, v in metadata.items()
+                if k not in ("serialize", "serialization_strategy")
+            }
+        serialize_option = metadata.get("serialize")
         if serialize_option is not None:
             if callable(serialize_option):
                 self.metadata.pop("serialize", None)  # prevent recursion
+                if serialize_option is not pass_through:
+                    self._field_override_applied = True
             return serialize_option
         # the same lookup keys as the serializer: the Annotated type as written,
         # the type, and its origin (Config.serialization_strategy = {list: ...})
@@ -230,7 +247,7 @@ class Instance:
             for (
                 strategy
             ) in self.__owner_builder.iter_serialization_strategies(
-                self.metadata, typ
+                metadata, typ
             ):
                 if strategy is pass_through:
                     return pass_through
@@ -239,6 +256,8 @@ class Instance:
                 elif isinstance(strategy, SerializationStrategy):
                     serialize_option = strategy.serialize
                 if serialize_option is not None:
+                    if strategy is metadata.get("serialization_strategy"):
+                        self._field_override_applied = True
                     return serialize_option
         return None
 
